@@ -368,13 +368,21 @@ func (w *CancelWorld) Close() {
 }
 
 type C11Arg struct {
+	// LateCancel: parked environment calls do not notice a cancellation (they complete or fail on their own),
+	// and the write with which the replicator re-derives a fetched entry's address is gated too, so that a
+	// cancellation can land between "entry fetched" and "links queued"
+	LateCancel                        bool
 	Shape                             string
 	Conc                              uint
 	Reqs, Fails, Bound, Shards, Shard int
 }
 
 func (a C11Arg) Name() string {
-	return fmt.Sprintf("cancel/%s/conc%d/reqs%d/fails%d/dev%d/shard%d.%d", a.Shape, a.Conc, a.Reqs, a.Fails, a.Bound, a.Shard, a.Shards)
+	lc := ""
+	if a.LateCancel {
+		lc = "/late-cancel"
+	}
+	return fmt.Sprintf("cancel/%s/conc%d/reqs%d/fails%d/dev%d%s/shard%d.%d", a.Shape, a.Conc, a.Reqs, a.Fails, a.Bound, lc, a.Shard, a.Shards)
 }
 
 func c11Units(base C11Arg, shards int) []explore.Unit {
@@ -403,6 +411,10 @@ func init() {
 				u = append(u, c11Units(C11Arg{Shape: "chain3", Conc: conc, Reqs: 3, Fails: 1, Bound: b}, 16)...)
 				u = append(u, c11Units(C11Arg{Shape: "fork", Conc: conc, Reqs: 3, Fails: 1, Bound: b}, 16)...)
 			}
+			for _, conc := range []uint{1, 2} {
+				u = append(u, c11Units(C11Arg{Shape: "chain2", Conc: conc, Reqs: 2, Fails: 0, Bound: b, LateCancel: true}, 8)...)
+				u = append(u, c11Units(C11Arg{Shape: "chain3", Conc: conc, Reqs: 2, Fails: 0, Bound: b, LateCancel: true}, 8)...)
+			}
 			u = append(u, c11LoadUnits(b+1)...)
 			if tier == "thorough" {
 				u = append(u, c11Units(C11Arg{Shape: "chain4", Conc: 1, Reqs: 3, Fails: 2, Bound: 3}, 32)...)
@@ -429,7 +441,19 @@ func init() {
 			d := &explore.ScheduleDFS{
 				Settle:   settle,
 				Scenario: a.Name(),
-				New:      func() (explore.World, error) { return NewCancelWorld(a.Shape, a.Conc, a.Reqs, a.Fails) },
+				New: func() (explore.World, error) {
+					w, err := NewCancelWorld(a.Shape, a.Conc, a.Reqs, a.Fails)
+					if err == nil && a.LateCancel {
+						w.net.Gates.Deaf = true
+						w.net.Gates.Enable(func(kind, peer, key, caller string) bool {
+							if kind == "point" {
+								return strings.HasPrefix(peer, "repl.") || strings.HasPrefix(peer, "store.")
+							}
+							return peer == "B" && (kind == "dag.get" || (kind == "dag.add" && strings.HasPrefix(caller, "replicator.")))
+						})
+					}
+					return w, err
+				},
 				Bound:    a.Bound, Horizon: 300, Stats: c.Stats, Journal: c.JournalHist, Expired: c.Expired,
 				Shards: a.Shards, Shard: a.Shard,
 				Terminal: func(w explore.World, hist []string) []explore.Violation { return w.(*CancelWorld).Final() },
